@@ -137,6 +137,10 @@ pub(crate) struct Reader {
   fragment_assemblers: BTreeMap<GUID, FragmentAssembler>,
   last_fragment_garbage_collect: Timestamp,
   matched_writers: BTreeMap<GUID, RtpsWriterProxy>,
+  // How far the DataReader has been told it can read each Writer's stream.
+  // The limit in the topic cache is shared with the other Readers of the topic,
+  // so it can move without this Reader having moved it.
+  announced_reliable_before: BTreeMap<GUID, SequenceNumber>,
   writer_match_count_total: i32, // total count, never decreases
 
   requested_deadline_missed_count: i32,
@@ -203,6 +207,7 @@ impl Reader {
       fragment_assemblers: BTreeMap::new(),
       last_fragment_garbage_collect: Timestamp::now(),
       matched_writers: BTreeMap::new(),
+      announced_reliable_before: BTreeMap::new(),
       writer_match_count_total: 0,
       requested_deadline_missed_count: 0,
       offered_incompatible_qos_count: 0,
@@ -457,6 +462,10 @@ impl Reader {
   pub fn remove_writer_proxy(&mut self, writer_guid: GUID) {
     if self.matched_writers.contains_key(&writer_guid) {
       self.matched_writers.remove(&writer_guid);
+      self.announced_reliable_before.remove(&writer_guid);
+      self
+        .acquire_the_topic_cache_guard()
+        .forget_reader(Some(writer_guid), self.my_guid.entity_id);
       #[cfg(feature = "security")]
       if let Some(security_plugins_handle) = &self.security_plugins {
         security_plugins_handle
@@ -927,12 +936,8 @@ impl Reader {
         // remove changes until first_sn.
         writer_proxy.irrelevant_changes_up_to(heartbeat.first_sn);
 
-        let marker_moved = this
-          .acquire_the_topic_cache_guard()
-          .mark_reliably_received_before(writer_guid, writer_proxy.all_ackable_before());
-        if marker_moved {
-          this.notify_cache_change();
-        }
+        this.mark_reliably_received_before(writer_guid, writer_proxy.all_ackable_before());
+        this.notify_if_more_is_readable(writer_guid);
 
         // let received_before = writer_proxy.all_ackable_before();
         let reader_id = this.entity_id();
@@ -1135,16 +1140,12 @@ impl Reader {
     }
 
     // Get the topic cache and mark progress
-    let marker_moved = self
-      .acquire_the_topic_cache_guard()
-      .mark_reliably_received_before(writer_guid, all_ackable_before);
+    self.mark_reliably_received_before(writer_guid, all_ackable_before);
 
     // Receiving a GAP could make a Reliable stream.
     // E.g. we had #2, but were missing #1. Now GAP says that #1 does not exist.
     // Then a Reliable Datareader
-    if marker_moved {
-      self.notify_cache_change();
-    }
+    self.notify_if_more_is_readable(writer_guid);
     // able to move forward, i.e. hand over data to application, if
     // we now know that nothing is missng from the past.
 
@@ -1207,18 +1208,55 @@ impl Reader {
   ) {
     let cache_change = CacheChange::new(writer_guid, writer_sn, write_options, data);
 
-    // Get the topic cache
-    let mut tc = self.acquire_the_topic_cache_guard();
-
-    tc.add_change(&receive_timestamp, cache_change);
+    self
+      .acquire_the_topic_cache_guard()
+      .add_change(&receive_timestamp, cache_change);
     // Mark seqnums as received if not behaving statelessly
     if !self.like_stateless {
-      self.matched_writer(writer_guid).map(|wp| {
-        tc.mark_reliably_received_before(writer_guid, wp.all_ackable_before());
+      if let Some(all_ackable_before) = self
+        .matched_writer(writer_guid)
+        .map(RtpsWriterProxy::all_ackable_before)
+      {
+        self.mark_reliably_received_before(writer_guid, all_ackable_before);
         // Here we do not need to notify waiting DataReader, because
         // the upper call level from here does it.
-      });
+      }
     }
+  }
+
+  // Only a Reliable Reader takes part in the reliably-received-before marker of the
+  // topic cache: a Best Effort Reader does not get its holes filled, and would
+  // hold back the Reliable DataReaders of the topic forever.
+  fn mark_reliably_received_before(&self, writer_guid: GUID, sn: SequenceNumber) {
+    if self.reliability != policy::Reliability::BestEffort {
+      self
+        .acquire_the_topic_cache_guard()
+        .mark_reliably_received_before(writer_guid, self.my_guid.entity_id, sn);
+    }
+  }
+
+  // Wake up the DataReader, if it can now read further than we have told it so
+  // far. The limit is shared with the other Readers of the topic, and it may
+  // well be one of them who has moved it.
+  fn notify_if_more_is_readable(&mut self, writer_guid: GUID) {
+    let readable_before = self
+      .acquire_the_topic_cache_guard()
+      .reliable_before(writer_guid);
+    let announced = self
+      .announced_reliable_before
+      .entry(writer_guid)
+      .or_insert(SequenceNumber::default());
+    if readable_before > *announced {
+      *announced = readable_before;
+      self.notify_cache_change();
+    }
+  }
+
+  // This Reader is going away.
+  pub(crate) fn leave_topic_cache(&self) {
+    self
+      .acquire_the_topic_cache_guard()
+      .forget_reader(None, self.my_guid.entity_id);
   }
 
   // notifies DataReaders (or any listeners that history cache has changed for
